@@ -165,6 +165,9 @@ func (e *CEnv) lookupLocal(name string) (*Val, bool) {
 		if !(b.block.Dominates(at)) && !b.addr {
 			continue
 		}
+		if e.loop == nil && b.block == at && b.idx >= fg.curInstrIdx && !b.addr {
+			continue // bound later in the same block than the point of evaluation
+		}
 		if defBlock != nil && !defBlock.Dominates(at) {
 			continue
 		}
@@ -770,6 +773,30 @@ func (fg *FnGen) evalCall(x *CCall, env *CEnv) *Val {
 			panic(unsupported("oldsel: no field " + x.Args[1].cstr()))
 		}
 		return fg.loadIn(env.old, fl)
+	case "ghostat":
+		// ghostat(T.f, r): value of the ghost field T.f of the object with reference r
+		path := x.Args[0].cstr()
+		pkgPath := env.calleePkg
+		if pkgPath == "" || pkgPath == "<spec>" {
+			pkgPath = fnPkgPath(fg.fn)
+		}
+		pn := ""
+		if p := fg.g.allPkgs[pkgPath]; p != nil {
+			pn = p.Name + "."
+		}
+		k := strings.LastIndex(path, ".")
+		comp := "H:" + pn + path[:k] + ".$" + path[k+1:]
+		sort := SInt
+		var T types.Type = tInt
+		for _, d := range fg.g.cs.Decls {
+			if d.Kind == "ghostfield" && len(d.Args) >= 2 && d.Args[0] == path && d.Args[1] == "bool" {
+				sort = SBool
+				T = tBool
+			}
+		}
+		a := fg.get(env.st, comp, ArrSort(sort))
+		r := fg.evalC(x.Args[1], env)
+		return &Val{T: T, L: []Term{Select(a, r.L[0])}}
 	case "noneheld":
 		// this goroutine holds no mutex of the given kind (T.mu)
 		path := x.Args[0].cstr()
@@ -949,6 +976,21 @@ func (fg *FnGen) evalMod(e CExpr, env *CEnv) []modEntry {
 				}
 				fg.compSort("A:"+l.Prefix, ArrSort(sort))
 				return []modEntry{{comp: "A:" + l.Prefix, whole: true, src: e.cstr()}}
+			case "allatomic":
+				path := c.Args[0].cstr()
+				pkgPath := env.calleePkg
+				if pkgPath == "" || pkgPath == "<spec>" {
+					pkgPath = fnPkgPath(fg.fn)
+				}
+				pn := ""
+				if p := fg.g.allPkgs[pkgPath]; p != nil {
+					pn = p.Name + "."
+				}
+				comp := "A:" + pn + path
+				if _, ok := fg.compSorts[comp]; !ok {
+					fg.compSort(comp, ArrSort(SBool))
+				}
+				return []modEntry{{comp: comp, whole: true, src: e.cstr()}}
 			case "allof":
 				// whole component of a (ghost) field: allof(T.f)
 				path := c.Args[0].cstr()
@@ -973,6 +1015,30 @@ func (fg *FnGen) evalMod(e CExpr, env *CEnv) []modEntry {
 					}
 				}
 				return []modEntry{{comp: comp, whole: true, src: e.cstr()}}
+			case "allmaps":
+				// every map of the type of the argument (and of nested map element types): whole components
+				v := fg.evalC(c.Args[0], env)
+				var out []modEntry
+				T := v.T
+				for {
+					mt, ok := types.Unalias(T).Underlying().(*types.Map)
+					if !ok {
+						break
+					}
+					mc := mapComp(mt)
+					fg.compSort(mc+"!has", ArrSort(ArrSort(SBool)))
+					fg.compSort(mc+"!len", ArrSort(SInt))
+					out = append(out, modEntry{comp: mc + "!has", whole: true}, modEntry{comp: mc + "!len", whole: true})
+					for _, leaf := range layout(mt.Elem()) {
+						fg.compSort(mc+"!val"+leaf.Path, ArrSort(ArrSort(leaf.Sort)))
+						out = append(out, modEntry{comp: mc + "!val" + leaf.Path, whole: true})
+					}
+					T = mt.Elem()
+				}
+				if len(out) == 0 {
+					panic(unsupported("allmaps() of non-map"))
+				}
+				return out
 			case "elems":
 				v := fg.evalC(c.Args[0], env)
 				st, ok := types.Unalias(v.T).Underlying().(*types.Slice)
